@@ -11,14 +11,9 @@ use dmntk_feel::{AstNode, FeelDate, FeelDateTime, FeelNumber, FeelTime, FeelType
 pub fn number_parts(n: &FeelNumber) -> (bool, String, i64) {
   let plain = n.to_string();
   if let Some(p) = parts_of_plain(&plain) {
-    // Plain text cannot show a positive exponent (1E+1 prints as 10). `is_integer` is
-    // "exponent = 0"; when it is false for digits-only text the exponent is positive: such
-    // values come out of `reduce`, and the reduced scientific `Debug` text is exact for them.
-    if p.2 == 0 && !n.is_integer() {
-      if let Some(q) = parts_of_sci(&format!("{:?}", n)) {
-        return q;
-      }
-    }
+    // Plain text cannot show a positive exponent (1E+1 prints as 10); no public API can: the
+    // two representations are observationally equal, and the driver prints numbers with a
+    // positive exponent expanded to exponent 0 as well.
     return p;
   }
   let sci = format!("{:?}", n);
